@@ -13,7 +13,8 @@ sys.path.insert(0, os.path.dirname(os.path.abspath(__file__)))
 from cxx_ast import *
 
 
-def assign_stmt(n, env):
+def assign_stmt(n, env, conv=None):
+    conv = conv or to_ir
     n = strip(n)
     if n.get("kind") != "BinaryOperator" or n.get("opcode") != "=":
         raise TranslateError("statement is not an assignment: %s" % n.get("kind"))
@@ -24,7 +25,7 @@ def assign_stmt(n, env):
     base, idx = [strip(x) for x in kids(lhs)]
     if base["referencedDecl"]["name"] != "ic" or idx.get("kind") != "IntegerLiteral":
         raise TranslateError("lhs is not ic[<literal>]")
-    return int(idx["value"]), to_ir(rhs, env)
+    return int(idx["value"]), conv(rhs, env)
 
 
 def enum_values():
@@ -54,7 +55,7 @@ def const_of(n, enums):
     return None
 
 
-def if_chain(node, aliases, env):
+def if_chain(node, aliases, env, conv=None):
     """if (it == K) {assignments} else if (it == K') {...} ... (no final else)"""
     enums = enum_values()
     cases = {}
@@ -83,7 +84,7 @@ def if_chain(node, aliases, env):
         sts = kids(blk) if blk.get("kind") == "CompoundStmt" else [blk]
         cases[val] = {}
         for st in sts:
-            j, e = assign_stmt(st, env)
+            j, e = assign_stmt(st, env, conv)
             if j in cases[val]:
                 raise TranslateError("ic[%d] assigned twice in case %d" % (j, val))
             cases[val][j] = e
@@ -92,6 +93,12 @@ def if_chain(node, aliases, env):
 
 
 def translate():
+    return emit(parse_cases())
+
+
+def parse_cases(conv=None):
+    """{it: {j: expression of ic[j]}}; `conv` turns a clang expression node into the caller's IR (default: the
+    exact-arithmetic IR of cxx_ast.to_ir; translate/coeffsfl2coq.py passes a typed one)"""
     docs = ast_of("src/SM/SourceMap.cpp", "calcCoefficiants")
     decl, body = body_of(docs, "calcCoefficiants")
     params = [c["name"] for c in decl["inner"] if c.get("kind") == "ParmVarDecl"]
@@ -112,8 +119,7 @@ def translate():
     cases = {}
     cur = None
     if len(st) == 1 and st[0]["kind"] == "IfStmt":
-        cases = if_chain(st[0], aliases, env)
-        return emit(cases)
+        return if_chain(st[0], aliases, env, conv)
     if len(st) != 1 or st[0]["kind"] != "SwitchStmt":
         raise TranslateError("body is neither a single switch nor an if/else-if chain")
     sw = st[0]
@@ -122,7 +128,7 @@ def translate():
     if c.get("kind") != "DeclRefExpr" or c["referencedDecl"]["name"] not in aliases:
         raise TranslateError("switch is not over `it`")
 
-    assign = lambda n: assign_stmt(n, env)
+    assign = lambda n: assign_stmt(n, env, conv)
     for s in kids(comp):
         k = s.get("kind")
         if k == "CaseStmt":
@@ -153,7 +159,7 @@ def translate():
             if j in cases[cur]:
                 raise TranslateError("ic[%d] assigned twice in case %d" % (j, cur))
             cases[cur][j] = e
-    return emit(cases)
+    return cases
 
 
 def emit(cases):
